@@ -45,6 +45,7 @@ type ExecEvent struct {
 	Machine   string `json:"machine,omitempty"`
 	StartMS   int64  `json:"start_ms"`
 	EndMS     int64  `json:"end_ms"`
+	Note      string `json:"note,omitempty"`
 
 	wrongListings map[string]string
 }
@@ -399,8 +400,28 @@ func (w *wbuild) handler(inv *simexec.Invocation) (int, error) {
 	}
 	if f[1] == "SIMCHECK" {
 		key := f[3]
-		ev := ExecEvent{Inv: invN, Label: s.Label(), Kind: "check", Start: inv.StartStep, Machine: m.Name}
-		inv.Sleep(0)
+		ev := ExecEvent{Inv: invN, Label: s.Label(), Kind: "check", Start: inv.StartStep, Machine: m.Name, StartMS: inv.StartSim.Milliseconds()}
+		// an output check is a shell like any other: it takes time, it has to be killed on
+		// cancellation and must not be forked after an interrupt
+		w.mu.Lock()
+		if w.live == nil {
+			w.live = map[*simexec.Invocation]string{}
+		}
+		w.live[inv] = s.Label() + " (output check)"
+		w.mu.Unlock()
+		defer func() {
+			w.mu.Lock()
+			delete(w.live, inv)
+			w.mu.Unlock()
+		}()
+		if !inv.Sleep(time.Duration(s.CheckMS) * time.Millisecond) {
+			ev.End = w.s.Steps()
+			ev.EndMS = w.s.SimElapsed().Milliseconds()
+			ev.Killed = true
+			ev.Exit = 1
+			w.record(ev)
+			return 1, nil
+		}
 		w.mu.Lock()
 		val := u.Ext[key]
 		rcFail := u.Ext[key+"#rc"] == "fail" // the check prints what it prints, but exits non-zero
@@ -416,6 +437,24 @@ func (w *wbuild) handler(inv *simexec.Invocation) (int, error) {
 		return ev.Exit, nil
 	}
 	// ---- target command
+	// grog prepends shell helpers to the script: $(output <label> <i>) / $(bin <label>) resolve
+	// through case tables built from the target's direct dependencies. The simulated command
+	// "uses" the helper for every dependency that has outputs: a missing entry fails it.
+	if oi := strings.Index(script, "\noutput() {"); oi >= 0 {
+		for _, d := range u.DepTargets(s) {
+			if ds := u.Specs[d]; ds != nil && len(ds.Outs) > 0 && !strings.Contains(script[oi:], "\""+d+"\")") {
+				evh := ExecEvent{Inv: invN, Label: s.Label(), Kind: "cmd", Start: inv.StartStep, Machine: m.Name, StartMS: inv.StartSim.Milliseconds(), Exit: 1}
+				evh.End = w.s.Steps()
+				evh.EndMS = w.s.SimElapsed().Milliseconds()
+				evh.Note = "unknown output label " + d + " in the $(output) helper of this command"
+				w.record(evh)
+				if cmd.Stderr != nil {
+					cmd.Stderr.Write([]byte("Error: unknown output label '" + d + "'\n"))
+				}
+				return 1, nil
+			}
+		}
+	}
 	inv.TrapTerm = s.TrapTerm
 	w.mu.Lock()
 	if w.live == nil {
